@@ -63,7 +63,9 @@ func (fx *Fx) hardwired(st *State, fn *types.Func, call *ast.CallExpr, recv *Val
 			return nil, false
 		}
 		mu := c.define("mu", "Int", recv.T)
-		fx.touchLock(st, mu)
+		if recvName == "Mutex" || recvName == "RWMutex" {
+			fx.touchLock(st, mu)
+		}
 		held := fmt.Sprintf("(select %s %s)", fx.lkHeap(st), mu)
 		what := fx.exprText(call.Fun)
 		switch recvName + "." + fn.Name() {
@@ -71,26 +73,22 @@ func (fx *Fx) hardwired(st *State, fn *types.Func, call *ast.CallExpr, recv *Val
 			c.oblige(st, "lock-order", "Lock("+what+")", fmt.Sprintf("(= %s 0)", held), "lock not already held by this activation: "+what, pos)
 			fx.assumeLock(st, fmt.Sprintf("(= %s 0)", held))
 			fx.setLK(st, mu, "2")
-			st.logEvent(evTerm("Lock", mu, "", "", "2"))
 			// other goroutines may have changed guarded state: nothing is known about it (heaps are not refined by locks)
 			return nil, true
 		case "RWMutex.RLock":
 			c.oblige(st, "lock-order", "RLock("+what+")", fmt.Sprintf("(= %s 0)", held), "lock not already held by this activation: "+what, pos)
 			fx.assumeLock(st, fmt.Sprintf("(= %s 0)", held))
 			fx.setLK(st, mu, "1")
-			st.logEvent(evTerm("Lock", mu, "", "", "1"))
 			return nil, true
 		case "Mutex.Unlock", "RWMutex.Unlock":
 			c.oblige(st, "lock-released", "Unlock("+what+")", fmt.Sprintf("(= %s 2)", held), "unlock of a write lock held by this activation: "+what, pos)
 			fx.assumeLock(st, fmt.Sprintf("(= %s 2)", held))
 			fx.setLK(st, mu, "0")
-			st.logEvent(evTerm("Unlock", mu, "", "", "2"))
 			return nil, true
 		case "RWMutex.RUnlock":
 			c.oblige(st, "lock-released", "RUnlock("+what+")", fmt.Sprintf("(= %s 1)", held), "unlock of a read lock held by this activation: "+what, pos)
 			fx.assumeLock(st, fmt.Sprintf("(= %s 1)", held))
 			fx.setLK(st, mu, "0")
-			st.logEvent(evTerm("Unlock", mu, "", "", "1"))
 			return nil, true
 		case "WaitGroup.Add":
 			n := argv(0)
@@ -184,6 +182,7 @@ func (fx *Fx) hardwired(st *State, fn *types.Func, call *ast.CallExpr, recv *Val
 				c.declareFun("ctx_done", []string{"Iface"}, "Int")
 				t := c.define("done", "Int", fmt.Sprintf("(ctx_done %s)", recv.T))
 				st.assume(fmt.Sprintf("(>= %s 0)", t))
+				st.assume(c.refTypeFact(t, fn.Type().(*types.Signature).Results().At(0).Type()))
 				return []Val{{T: t, S: "Int", GT: fn.Type().(*types.Signature).Results().At(0).Type()}}, true
 			case "Err":
 				v := fx.freshOfType(st, "ctxerr", fn.Type().(*types.Signature).Results().At(0).Type())
